@@ -682,6 +682,97 @@ example :
   intro o info h1 h2 h3
   rfl
 
+/-! ### tombstones are invisible to live lookups and to the missing-parent recovery -/
+
+theorem lookupPathS_false (idx : List Side) (p : Path) : lookupPathS idx p false = lookupPath idx p := by
+  unfold lookupPathS lookupPath
+  congr 1
+  funext s
+  simp [Bool.and_assoc]
+
+/-- **live_lookup_never_returns_tombstone**: `lookup_path` without `stale` never returns a discarded (or conflicted) entry -/
+theorem live_lookup_never_returns_tombstone (idx : List Side) (p : Path) (s : Side) (h : s ∈ lookupPathS idx p false) :
+    s.ign.isDiscarded = false ∧ s.ign.isConflicted = false ∧ s.path = some p ∧ s ∈ idx := by
+  unfold lookupPathS at h
+  rw [List.mem_filter] at h
+  obtain ⟨hm, hc⟩ := h
+  simp at hc
+  exact ⟨hc.2.1, hc.2.2, hc.1, hm⟩
+
+/-- the stale lookup returns every entry indexed under the path, tombstones included -/
+theorem stale_lookup_returns_tombstones (idx : List Side) (p : Path) (s : Side) (hm : s ∈ idx) (hp : s.path = some p) :
+    s ∈ lookupPathS idx p true := by
+  unfold lookupPathS
+  rw [List.mem_filter]
+  exact ⟨hm, by simp [hp]⟩
+
+/-- the live lookup only depends on the live entries of the index -/
+theorem live_lookup_depends_on_live_only (idx : List Side) (p : Path) :
+    lookupPathS idx p false = lookupPathS (idx.filter Side.live) p false := by
+  unfold lookupPathS Side.live
+  rw [List.filter_filter]
+  congr 1
+  funext s
+  cases s.ign <;> simp [Ign.isDiscarded, Ign.isConflicted]
+
+/-- **fnf_parent_decision_depends_on_live_only**: the "parent known?" decision of the handler is a function of the LIVE
+    entries: two indexes with the same live entries (whatever tombstones they hold, wherever) decide alike -/
+theorem fnf_parent_decision_depends_on_live_only (idx idx' : List Side) (parent : Path) (prio : Nat) (has : Bool)
+    (h : idx.filter Side.live = idx'.filter Side.live) :
+    fnfParent false idx parent prio has = fnfParent false idx' parent prio has := by
+  unfold fnfParent
+  rw [live_lookup_depends_on_live_only idx, live_lookup_depends_on_live_only idx', h]
+
+/-- adding or removing tombstones anywhere in the index changes nothing -/
+theorem fnf_ignores_tombstones (pre post : List Side) (tomb : Side) (parent : Path) (prio : Nat) (has : Bool)
+    (ht : tomb.live = false) :
+    fnfParent false (pre ++ tomb :: post) parent prio has = fnfParent false (pre ++ post) parent prio has := by
+  apply fnf_parent_decision_depends_on_live_only
+  simp [List.filter_append, List.filter_cons, ht]
+
+/-- **fnf_injects_parent_when_no_live_entry**: no live entry for the parent path, the provider has the folder, the child
+    has not been punted out: the synthetic parent event is injected — however many tombstones the path has -/
+theorem fnf_injects_parent_when_no_live_entry (idx : List Side) (parent : Path) (prio : Nat)
+    (hp : prio ≤ 5) (hl : ∀ s ∈ idx, s.path = some parent → s.live = false) :
+    fnfParent false idx parent prio true = .injectParent := by
+  unfold fnfParent
+  have h5 : ¬ prio > 5 := by omega
+  have : lookupPathS idx parent false = [] := by
+    unfold lookupPathS
+    rw [List.filter_eq_nil_iff]
+    intro s hs
+    by_cases hpath : s.path = some parent
+    · have := hl s hs hpath
+      unfold Side.live at this
+      simp [hpath]
+      intro h1
+      cases hd : s.ign.isDiscarded <;> simp_all
+    · simp [hpath]
+  simp [h5, this]
+
+/-- decision table of the first step, complete -/
+theorem fnf_decision_table (idx : List Side) (parent : Path) (prio : Nat) (has : Bool) :
+    fnfParent false idx parent prio has =
+      (if prio > 5 then .tooManyRetries
+       else match lookupPath idx parent with
+         | [] => if has then .injectParent else .noInfo
+         | k :: _ => .useEntry k) := by
+  unfold fnfParent
+  rw [lookupPathS_false]
+  split
+  · rfl
+  · rfl
+
+/- FALSE for the stale lookup (kept for the record): `fnf_injects_parent_when_no_live_entry` with `fnfParent true` -/
+/-- kernel-checked witness: ONE tombstone of an earlier, deleted folder on the parent path: the stale variant takes the dead
+    entry for the parent and never injects the parent event; the live variant injects it -/
+theorem stale_lookup_blocks_parent_injection :
+    let tomb : Side := { oid := some "o1", path := some "/r/d", hash := none, ex := .trashed, saved := none,
+                         otype := .dir, changed := 0, lastGotten := 0, ign := .discarded }
+    fnfParent false [tomb] "/r/d" 0 true = .injectParent ∧ fnfParent true [tomb] "/r/d" 0 true = .useEntry tomb ∧
+    tomb.live = false := by
+  decide
+
 end CS.Hints
 
 /-! ## Part 2 — the outcome relation the trace-refinement layer decides (Model/Spec/Mangle.lean) -/
